@@ -1362,3 +1362,30 @@ def core_perm_cases(dries=(False, True)):
                             opts["collect_stats"] = True
                         out.append({"src": {"jobs": [sj, cl]}, "dst": {"jobs": [dj]}, "opts": opts, "entry": entry})
     return out
+
+
+def core_cross_cases(dries=(False,)):
+    """Job.sync / sync_jobs between jobs whose STATE POINTS DIFFER (Project.sync only pairs equal ids): the two state
+    point files differ, so every option combination must still leave the destination's identity alone.  x document
+    strategy (DocSync.COPY changes which own files take part in the walk) x file strategy (incl. a custom strategy that
+    says yes to the state point file, and update with the source's state point file newer / older) x destination
+    initialised or not."""
+    out = []
+    for ds in ("copy", None, "update", "nosync", ["bykey", ["pred", ["k"]]]):
+        for strat in (None, "always", "never", "update", ["custom", [FN_SP, FN_DOC, "x"]], ["custom", []]):
+            for kind in ("Job.sync", "sync_jobs"):
+                for dst_init in (True, False):
+                    for sp_newer in (True, False):
+                        for dry in dries:
+                            sj = {"sp": {"a": 0}, "files": {"x": ["S", 2000], "only_src": ["O", 1000], "same": ["=", 1000]}, "dirs": [],
+                                  "doc": {"k": 1, "s": 2}, "meta_mt": {FN_SP: 2000 if sp_newer else 1000, FN_DOC: 2000 if sp_newer else 1000}}
+                            dj = {"sp": {"a": 1, "b": "other"}, "files": {"x": ["D", 1000], "only_dst": ["P", 1000], "same": ["=", 1000]}, "dirs": [],
+                                  "doc": {"k": 1, "d": 3}, "meta_mt": {FN_SP: 1500, FN_DOC: 1500}}
+                            if not dst_init:
+                                dj = {"sp": dj["sp"], "init": False}
+                            opts = {"strategy": strat, "doc_sync": ds, "recursive": False, "check_schema": False}
+                            if dry:
+                                opts["dry_run"] = True
+                            out.append({"src": {"jobs": [sj]}, "dst": {"jobs": [dj, {"sp": {"a": 0}, "files": {"x": ["Q", 1000]}, "dirs": []}]},
+                                        "opts": opts, "entry": [kind, sj["sp"], dj["sp"]]})
+    return out
